@@ -44,29 +44,42 @@ def obligations():
         obs.append(Ob(id='C09.' + n, props=['C09'], quick_for=[], mem_gb=40, tu='kernel', tier='B', roots=[TK + '::reorder_incident_halffaces'], harness=mh,
                       includes=['wf.h', 'view.h', 'add_spec.h', 'query_spec.h', 'reorder_spec.h'], copies=[TK], defines=d, unwind=2 * max(nf, 3) + 2, covers=2, timeout=3000,
                       bounds=dict(edges=1, faces=nf, cells=2, face_valence=2, cell_valence=3, incident_list=nf), note='rotational order after reorder_incident_halffaces on any WF state with one edge, up to %d faces around it and two cells' % nf))
-    # rotational order on constructive shapes: the mesh is built by the real construction code, then the incident-halfface
-    # lists of a symbolic edge are put into an ARBITRARY (symbolic) order before the real reorder_incident_halffaces runs
+    # rotational order on constructive shapes: the mesh is built by the real construction code; then, for EVERY edge of the
+    # shape and EVERY order of that edge's incident-halfface list, the real reorder_incident_halffaces runs and the result
+    # is compared with the rotational-order specification. All data are concrete, so CBMC's symbolic execution enumerates.
     from obligations.query import DEFS, ROOTS_BUILD
-    for sh, shid, extra in (('twotets', 2, {}), ('ring3', 5, dict(LE=10, PE=10, LF=9, PF=9, LC=3, PC=3)), ('fan3', 6, dict(LE=12, PE=12, LF=10, PF=10, LC=3, PC=3, LINC=4, PINC=4, LOUT=5, POUT=5))):
+    PERM = ', '.join('{%d,%d,%d,%d}' % p for p in __import__('itertools').permutations(range(4)))
+    for sh, shid, extra in (('twotets', 2, {}), ('ring3', 5, dict(LE=10, PE=10, LF=9, PF=9, LC=3, PC=3, VSTD_CAP_DEFAULT=26)), ('fan3', 6, dict(LE=12, PE=12, LF=10, PF=10, LC=3, PC=3, LINC=4, PINC=4, LOUT=5, POUT=5, VSTD_CAP_DEFAULT=26))):
         n = 'reorder.shape.' + sh
         d = dict(DEFS); d.update(extra)
-        pre = '  TK m; { static const int W0[] = {SHAPE_W}; int aa[4]; unwitness(W0, &m, aa); }'
-        args = '''  int h = ARG(0);
-  __CPROVER_assume(0 <= h && (unsigned long)h < m.edges_.size);
-  /* arbitrary order of the two incident lists (each stays a permutation of the right multiset: WF's clause) */
-  for (int side = 0; side < 2; side++) { int he = 2 * h + side; int cnt = (int)INCN(&m, he); int old[4]; int p[4];
-    for (int i = 0; i < 4; i++) if (i < cnt) { old[i] = INC(&m, he, i); p[i] = ARG(1); __CPROVER_assume(0 <= p[i] && p[i] < cnt); }
-    for (int i = 0; i < 4; i++) for (int j = 0; j < 4; j++) if (i < j && j < cnt) __CPROVER_assume(p[i] != p[j]);
-    for (int i = 0; i < 4; i++) if (i < cnt) m.incident_hfs_per_he_.data[he].data[i].idx_ = old[p[i]]; }'''
-        post = ['  int L1[4] = {0, 0, 0, 0}; int n0 = (int)INCN(&o, 2 * h); for (int i = 0; i < 4; i++) if (i < n0) L1[i] = INC(&m, 2 * h, i);',
-                A('wf(&m)', 'wf_preserved', n),
-                A('spec_ordered3(&m, 2 * h, L1, n0)', 'halffaces_in_rotational_order (each followed by the opposite of its in-cell neighbour; a boundary halfface, if any, last)', n),
-                A('g_k < 0 || g_k >= n0 || INC(&m, 2 * h + 1, g_k) == (INC(&m, 2 * h, n0 - 1 - g_k) ^ 1)', 'opposite_halfedge_reports_the_mirrored_reverse_sequence', n),
-                A('map_ecache(&o, &m, RHO_NONE, RHO_NONE, h, 0) && map_edges(&o, &m, RHO_NONE, RHO_NONE, 0, -1, 0) && map_faces(&o, &m, RHO_NONE, RHO_NONE, 0, -1, 0) && map_cells(&o, &m, RHO_NONE, RHO_NONE, 0, -1, 0) && map_vcache(&o, &m, RHO_NONE, RHO_NONE, -1, 0) && map_fcache(&o, &m, RHO_NONE, RHO_NONE, -1, 0)', 'nothing_but_the_two_lists_of_this_edge_changes', n)]
-        mh = MeshHarness(args=args, pre=pre, snap='  witness(&o, h, 0, 0, 0);\n  COVER(INCN(&m, 2 * h) >= 3, "an edge with at least three incident halffaces");',
-                         call='  { struct EH hh; hh.idx_ = h; TopologyKernel__reorder_incident_halffaces(&m, hh); }', post='\n'.join(post), op='reorder')
-        obs.append(Ob(id='C09.' + n, props=['C09', 'C01'], quick_for=['C09'] if sh == 'twotets' else [], tu='kernel', tier='B', roots=[TK + '::reorder_incident_halffaces'] + ROOTS_BUILD, harness=mh,
-                      includes=['wf.h', 'view.h', 'add_spec.h', 'query_spec.h', 'reorder_spec.h', 'shapes.h'], copies=[TK], defines=d, unwind=26, unwind_start=8, covers=1, timeout=1800,
-                      inits={'tk_init': TK}, prebuild_shape=shid, bounds=dict(shape=sh, edge='all edges of the shape (symbolic)', initial_order='every permutation of the incident lists (symbolic)'),
-                      note='rotational order after the real reorder_incident_halffaces on the constructive shape "%s", starting from every permutation of the incident-halfface lists of a symbolic edge' % sh))
+        h = '''
+static const int PERM4[24][4] = {%(PERM)s};
+static _Bool perm_ok(const int *p, int cnt) { for (int i = 0; i < 4; i++) if ((i < cnt) != (p[i] < cnt)) return 0; return 1; }   /* permutes the first cnt positions only */
+void harness(void) {
+  TK base; { static const int W0[] = {SHAPE_W}; int aa[4]; unwitness(W0, &base, aa); }
+  int checked = 0;
+  for (int h = 0; h < (int)base.edges_.size; h++) {
+    int cnt = (int)INCN(&base, 2 * h);
+    for (int q = 0; q < 24; q++) if (perm_ok(PERM4[q], cnt)) for (int rev = 0; rev < 2; rev++) {
+      TK m = TopologyKernel__copy(&base);
+      for (int i = 0; i < 4; i++) if (i < cnt) m.incident_hfs_per_he_.data[2 * h].data[i].idx_ = INC(&base, 2 * h, PERM4[q][i]);
+      if (rev) for (int i = 0; i < 4; i++) if (i < cnt) m.incident_hfs_per_he_.data[2 * h + 1].data[i].idx_ = INC(&base, 2 * h + 1, cnt - 1 - i);
+      TK o = TopologyKernel__copy(&m);
+      { struct EH hh; hh.idx_ = h; TopologyKernel__reorder_incident_halffaces(&m, hh); }
+      int L1[4] = {0, 0, 0, 0}; for (int i = 0; i < 4; i++) if (i < cnt) L1[i] = INC(&m, 2 * h, i);
+      __CPROVER_assert(wf(&m), "C09.%(n)s.wf_preserved");
+      __CPROVER_assert(spec_ordered3(&m, 2 * h, L1, cnt), "C09.%(n)s.halffaces_in_rotational_order (each followed by the opposite of its in-cell neighbour; a boundary halfface, if any, last)");
+      _Bool mirror = 1; for (int i = 0; i < 4; i++) if (i < cnt && INC(&m, 2 * h + 1, i) != (INC(&m, 2 * h, cnt - 1 - i) ^ 1)) mirror = 0;
+      __CPROVER_assert(mirror, "C09.%(n)s.opposite_halfedge_reports_the_mirrored_reverse_sequence");
+      __CPROVER_assert(map_ecache(&o, &m, RHO_NONE, RHO_NONE, h, 0) && map_edges(&o, &m, RHO_NONE, RHO_NONE, 0, -1, 0) && map_faces(&o, &m, RHO_NONE, RHO_NONE, 0, -1, 0) && map_cells(&o, &m, RHO_NONE, RHO_NONE, 0, -1, 0) && map_vcache(&o, &m, RHO_NONE, RHO_NONE, -1, 0) && map_fcache(&o, &m, RHO_NONE, RHO_NONE, -1, 0), "C09.%(n)s.nothing_but_the_two_lists_of_this_edge_changes");
+      checked++;
+    }
+  }
+  __CPROVER_assert(checked >= 2 * (int)base.edges_.size, "C09.%(n)s.every_edge_was_checked");
+}
+''' % dict(PERM=PERM, n=n)
+        obs.append(Ob(id='C09.' + n, props=['C09', 'C01'], quick_for=['C09'] if sh == 'twotets' else [], tu='kernel', tier='B', roots=[TK + '::reorder_incident_halffaces'] + ROOTS_BUILD, harness=h,
+                      includes=['wf.h', 'view.h', 'add_spec.h', 'query_spec.h', 'reorder_spec.h', 'shapes.h'], copies=[TK], defines=d, unwind=50, adaptive_unwind=False, covers=0, timeout=3000,
+                      inits={'tk_init': TK}, prebuild_shape=shid, bounds=dict(shape=sh, edge='every edge of the shape', initial_order='every permutation of the incident list of the first halfedge, the second list as built or reversed'),
+                      note='rotational order after the real reorder_incident_halffaces on the constructive shape "%s": every edge, every initial order of its incident-halfface list (enumerated by symbolic execution over concrete data)' % sh))
     return obs
